@@ -196,4 +196,143 @@ theorem buildParam_roundtrip (p : Param) (tail : Bytes) (h : CodecSpec.wfParam p
     simp only [be32, List.cons_append, List.nil_append, List.append_assoc] at hr
     simp [be32, hr]
 
+/-! ### error causes -/
+@[simp] theorem cc_unrec : ccUnrecognizedChunk = 6#16 := by decide
+@[simp] theorem cc_invparam : ccInvalidMandatory = 7#16 := by decide
+@[simp] theorem cc_uabort : ccUserAbort = 12#16 := by decide
+@[simp] theorem cc_pviol : ccProtocolViolation = 13#16 := by decide
+
+theorem causeHeaderMarshal_ok (code : BitVec 16) (raw : Bytes) (h : raw.length + 4 < 65536) :
+    causeHeaderMarshal code raw = .ok (be16 code ++ be16 (trunc16 (raw.length + 4)) ++ raw) := by
+  unfold causeHeaderMarshal
+  have he : trunc16 raw.length + trunc16 Gen.errorCauseHeaderLength = trunc16 (raw.length + 4) := by
+    apply BitVec.eq_of_toNat_eq
+    simp only [trunc16, c_errorCauseHeaderLength, BitVec.toNat_add, BitVec.toNat_ofNat]
+    omega
+  have hn : (trunc16 (raw.length + 4)).toNat = raw.length + 4 := trunc16_toNat (by omega)
+  simp only [he]
+  simp only [hn, c_errorCauseHeaderLength]
+  rw [if_neg (by omega)]
+  simp
+
+theorem causeHeaderUnmarshal_cons (a b c d : Byte) (v tail : Bytes) (hl : (u16 c d).toNat = 4 + v.length) :
+    causeHeaderUnmarshal (a :: b :: c :: d :: (v ++ tail)) = .ok (u16 a b, 4 + v.length, v) := by
+  unfold causeHeaderUnmarshal
+  have hlen : (a :: b :: c :: d :: (v ++ tail)).length = 4 + v.length + tail.length := by simp; omega
+  simp only [u16At_zero, u16At_cons_succ, ok_bind]
+  rw [if_neg (by rw [hl, hlen, c_errorCauseHeaderLength]; omega)]
+  have hvl : (u16 c d - trunc16 Gen.errorCauseHeaderLength).toNat = v.length := by
+    simp only [trunc16, c_errorCauseHeaderLength, BitVec.toNat_sub, BitVec.toNat_ofNat, hl]; omega
+  rw [hvl, c_errorCauseHeaderLength]
+  have := slice_mid [a, b, c, d] v tail
+  simp only [List.cons_append, List.nil_append, List.length_cons, List.length_nil, Nat.zero_add, Nat.reduceAdd] at this
+  rw [this, hl]
+  rfl
+
+/-- the code `encCause` puts on the wire -/
+def wireCode (c : Cause) : BitVec 16 :=
+  match c.kind with
+  | .unrecognizedChunk => ccUnrecognizedChunk
+  | .userAbort => ccUserAbort
+  | _ => c.code
+
+/-- the bytes `encCause` produces for a cause whose data fits -/
+def causeBytes (c : Cause) : Bytes := be16 (wireCode c) ++ be16 (trunc16 (c.data.length + 4)) ++ c.data
+
+theorem causeBytes_length (c : Cause) : (causeBytes c).length = 4 + c.data.length := by
+  simp [causeBytes]; omega
+
+theorem encCause_ok (c : Cause) (h : wfCause c = true) : encCause c = .ok (causeBytes c) := by
+  obtain ⟨kind, code, data⟩ := c
+  simp only [wfCause, Bool.and_eq_true, fits_iff] at h
+  cases kind <;> simp only [encCause, causeBytes, wireCode] <;> exact causeHeaderMarshal_ok _ _ h.1
+
+/-- `buildErrorCause ∘ marshal` for the five cause structs, whatever bytes follow -/
+theorem buildErrorCause_roundtrip (c : Cause) (tail : Bytes) (h : wfCause c = true) :
+    buildErrorCause (causeBytes c ++ tail) = .ok (c, 4 + c.data.length) := by
+  obtain ⟨kind, code, data⟩ := c
+  simp only [wfCause, Bool.and_eq_true, fits_iff] at h
+  obtain ⟨hfit, hk⟩ := h
+  have key : ∀ code' : BitVec 16,
+      (if code' = ccInvalidMandatory then CauseKind.invalidMandatory
+        else if code' = ccUnrecognizedChunk then .unrecognizedChunk
+        else if code' = ccProtocolViolation then .protocolViolation
+        else if code' = ccUserAbort then .userAbort else .hdr) = kind →
+      buildErrorCause (be16 code' ++ be16 (trunc16 (data.length + 4)) ++ data ++ tail)
+        = .ok ({ kind := kind, code := code', data := data }, 4 + data.length) := by
+    intro code' hkind
+    unfold buildErrorCause
+    simp only [be16, List.cons_append, List.nil_append, u16At_zero, ok_bind, u16_be]
+    have := causeHeaderUnmarshal_cons (byteOf (code'.toNat / 256)) (byteOf code'.toNat)
+      (byteOf ((trunc16 (data.length + 4)).toNat / 256)) (byteOf (trunc16 (data.length + 4)).toNat) data tail
+      (by rw [u16_be, trunc16_toNat (by omega)]; omega)
+    rw [u16_be] at this
+    rw [this]
+    simp only [ok_bind, hkind]
+  simp only [causeBytes, wireCode]
+  cases kind with
+  | hdr =>
+    apply key
+    simp only [bne_iff_ne, ne_eq, Bool.and_eq_true, decide_eq_true_eq, cc_unrec, cc_invparam, cc_uabort, cc_pviol] at hk
+    obtain ⟨⟨⟨h1, h2⟩, h3⟩, h4⟩ := hk
+    simp [h1, h2, h3, h4]
+  | invalidMandatory =>
+    apply key
+    simp only [decide_eq_true_eq] at hk
+    simp [hk]
+  | protocolViolation =>
+    apply key
+    simp only [decide_eq_true_eq] at hk
+    simp [hk]
+  | unrecognizedChunk =>
+    simp only [decide_eq_true_eq] at hk
+    subst hk
+    apply key
+    simp
+  | userAbort =>
+    simp only [decide_eq_true_eq] at hk
+    subst hk
+    apply key
+    simp
+
+theorem encCauses_ok (cs : List Cause) (hwf : ∀ c ∈ cs, wfCause c = true) :
+    encCauses cs = .ok (cs.map causeBytes).flatten := by
+  induction cs with
+  | nil => rfl
+  | cons c cs ih =>
+    unfold encCauses
+    rw [encCause_ok c (hwf c (by simp)), ih (fun x hx => hwf x (by simp [hx]))]
+    simp
+
+theorem causes_flatten_length (cs : List Cause) :
+    ((cs.map causeBytes).flatten).length = (cs.map fun c => 4 + c.data.length).sum := by
+  induction cs with
+  | nil => rfl
+  | cons c cs ih => simp [causeBytes_length, ih]
+
+/-- the cause loop of ABORT / ERROR reads back what `encCauses` wrote (causes are not padded) -/
+theorem causesLoop_roundtrip (pre : Bytes) (cs : List Cause) (fuel : Nat) (hf : cs.length < fuel)
+    (hwf : ∀ c ∈ cs, wfCause c = true) :
+    causesLoop (pre ++ (cs.map causeBytes).flatten) fuel pre.length = .ok cs := by
+  induction cs generalizing pre fuel with
+  | nil =>
+    cases fuel with
+    | zero => omega
+    | succ f =>
+      unfold causesLoop
+      rw [if_neg (by simp)]
+  | cons c cs ih =>
+    cases fuel with
+    | zero => omega
+    | succ f =>
+      unfold causesLoop
+      have hcl := causeBytes_length c
+      rw [if_pos (by simp only [List.map_cons, List.flatten_cons, List.length_append, hcl]; omega)]
+      rw [sliceFrom_append]
+      simp only [ok_bind, List.map_cons, List.flatten_cons]
+      rw [buildErrorCause_roundtrip c _ (hwf c (by simp))]
+      have := ih (pre ++ causeBytes c) f (by simp at hf; omega) (fun x hx => hwf x (by simp [hx]))
+      simp only [List.append_assoc, List.length_append, hcl] at this
+      simp only [ok_bind, this]
+
 end Codec
